@@ -982,6 +982,10 @@ def run(ctx):
         "the agent's BpfObject methods run for real on an aya::Ebpf loaded from an object that carries only the map definitions; bpf(2) is answered "
         "in-process by harness/src/bin/c06.rs (it records the map operations; their kernel-side effect is computed by ebpf_user/maps.c)",
     ]
+    not_located = gen_consts.c06_program_constants()[1]
+    ctx.coverage["constants_not_located"] = not_located
+    if not_located:
+        ctx.notes.append("not located in the source, pinned default used, tied by the correspondence run only: " + ", ".join(not_located))
     if shifts == (0, 0) and f4_known:
         ctx.notes.append("ebpf_cgroup.c takes the low half at both sites (F4 repaired) while known_findings still lists F4 as known; "
                          "nothing is suppressed, C06_redirect_and_record is full strength")
